@@ -46,7 +46,8 @@ META = {
                     "InventoryEntry.is_unmodified(lca entry) (same last-changed revision) implies the two entries are equal",
                     "texts are not binary (no NUL byte), so text_merge never raises BinaryFile",
                     "all trees share the root id; no tree references; no unversioned files in the way"],
-    "rule": ("trees over file ids 1..7, names a-d, 3 kinds, line-edited texts; triples built to satisfy each law's premise "
+    "rule": ("path re-use (an entry moved away and a NEW file id put at its old path, children renamed in place) directed + biased; "
+             "trees over file ids 1..9, names a-d, 3 kinds, line-edited texts; triples built to satisfy each law's premise "
              "(exhaustive single-entry edits first, then random edit scripts), plus arbitrary triples (conflicts) and criss-cross "
              "histories; non-trivial = OTHER differs from BASE"),
 }
@@ -174,6 +175,93 @@ def edit(rng, tree, fids, nops):
     return [list(e) for e in tree]
 
 
+def reuse(rng, tree, victims=None, fresh=(8, 9)):
+    """Path re-use: move an entry away (rename and/or re-parent) and put a NEW entry (new file id) at its old
+    path; a new directory also gets a new child, and a child of the moved directory is renamed/edited in place.
+    So one path denotes different file ids in the trees of one merge.  Returns None when not applicable."""
+    d = tdict(tree)
+    cands = [f for f in d if victims is None or f in victims]
+    if not cands or any(n in d for n in fresh):
+        return None
+    rng.shuffle(cands)
+    cands.sort(key=lambda f: 0 if d[f][3] == "d" and descendants(d, f) else 1 if d[f][3] == "d" else 2)
+    if rng.random() < 0.35:
+        rng.shuffle(cands)
+    for f in cands:
+        e = d[f]
+        old_parent, old_name = e[1], e[2]
+        taken = {(x[1], x[2]) for x in d.values()}
+        bad = descendants(d, f) | {f}
+        spots = [(p, n) for p in [old_parent, 0] + [g for g, x in d.items() if x[3] == "d" and g not in bad]
+                 for n in NAMES + ["old"] if (p, n) not in taken]
+        if not spots:
+            continue
+        e[1], e[2] = rng.choice(spots[:5] if rng.random() < 0.7 else spots)
+        kids = [g for g, x in d.items() if x[1] == f]
+        n1, n2 = fresh
+        kind = e[3] if rng.random() < 0.8 else rng.choice("fdl")
+        d[n1] = E(n1, old_parent, old_name, kind, rng.choice(TEXTS) if kind == "f" else rng.choice(TARGETS), rng.random() < 0.3)
+        if kind == "d":
+            d[n2] = E(n2, n1, rng.choice(NAMES + ["new"]), "f", rng.choice(TEXTS), rng.random() < 0.3)
+        for g in kids:
+            if victims is not None and g not in victims:
+                continue
+            r = rng.random()
+            sib = {x[2] for h, x in d.items() if x[1] == f and h != g}
+            free = [n for n in NAMES + ["g"] if n not in sib and n != d[g][2]]
+            if r < 0.6 and free:
+                d[g][2] = rng.choice(free)                       # renamed in place
+            elif r < 0.8 and d[g][3] == "f":
+                d[g][4] = rng.choice(TEXTS)
+            elif r < 0.9 and d[g][3] == "f":
+                d[g][5] = not d[g][5]
+        out = tlist(d)
+        if wf(out):
+            return out
+        d = tdict(tree)
+    return None
+
+
+def reuse_cases(rng, tier):
+    """Law-shaped and arbitrary triples in which one side re-uses a path (three-way and criss-cross)."""
+    fids = [1, 2, 3, 4, 5, 6]
+    n = 0
+    want = 60 if tier == "quick" else 400
+    for i in range(want * 20):
+        if n >= want:
+            break
+        base = gen_tree(rng, fids)
+        if i % 2 == 0 and not any(e[3] == "d" and descendants(tdict(base), e[0]) for e in base):
+            continue                                   # every other case: a non-empty directory is available
+        law = ["l2", "l2", "l4", "l1", "l3", "gen"][n % 6]
+        mtype = ["merge3", "weave", "lca"][(n // 6) % 3]
+        if law == "l2":
+            this, other = base, reuse(rng, base)
+        elif law == "l1":
+            this, other = reuse(rng, base), base
+        elif law == "l3":
+            this = other = reuse(rng, base)
+        elif law == "l4":
+            ids = [e[0] for e in base]
+            rng.shuffle(ids)
+            k = rng.randint(0, max(0, len(ids) - 1))
+            mine = set(ids[:k]) | {7}
+            other = reuse(rng, base, victims=set(ids[k:]))
+            this = edit(rng, base, sorted(mine), rng.randint(1, 3))
+            if other is not None and (changed(base, this) & changed(base, other)):
+                this = base
+        else:
+            other = reuse(rng, base)
+            this = edit(rng, base, fids + [7], rng.randint(1, 2))
+        if this is None or other is None:
+            continue
+        n += 1
+        if n % 3 == 0:
+            yield mk("2a", mtype, base, this, other, lcas=[base, base], tag="xreuse-" + law)
+        else:
+            yield mk("2a", mtype, base, this, other, tag="reuse-" + law)
+
+
 def changed(a, b):
     da, db = tdict(a), tdict(b)
     return {f for f in set(da) | set(db) if da.get(f) != db.get(f)}
@@ -248,6 +336,7 @@ def cases(rng, tier):
     quick = tier == "quick"
     yield from exhaustive_single(tier)
     yield from exhaustive_single_criss(tier)
+    yield from reuse_cases(rng, tier)
     fids = [1, 2, 3, 4, 5, 6]
     nrand = 30 if quick else 150
     for i in range(nrand * 6):
@@ -335,6 +424,43 @@ WITNESS_NOFINALPATH = mk("2a", "merge3", [E(1, 0, "x", "d"), E(3, 1, "a", "f", b
                          [E(1, 0, "x", "d"), E(3, 1, "b", "f", b"q\n")], tag="gen-nofinalpath")
 
 
+# path re-use (one path, different file ids in the trees of one merge), THIS = BASE unless said otherwise
+def _reuse_corpus():
+    D, F = E(1, 0, "d", "d"), E(3, 1, "f", "f", TEXTS[0])
+    base = [D, F]
+    # OTHER: mv d old; mkdir d (new id); add d/new; mv old/f old/g
+    o1 = [E(1, 0, "old", "d"), E(3, 1, "g", "f", TEXTS[0]), E(8, 0, "d", "d"), E(9, 8, "new", "f", b"q\n")]
+    # same without the in-place rename, and with an edit instead of the rename
+    o2 = [E(1, 0, "old", "d"), F, E(8, 0, "d", "d"), E(9, 8, "new", "f", b"q\n")]
+    o3 = [E(1, 0, "old", "d"), E(3, 1, "f", "f", TEXTS[3], True), E(8, 0, "d", "d"), E(9, 8, "f", "f", b"q\n")]
+    # the moved directory goes INTO the new one; the child moves to the new directory
+    o4 = [E(8, 0, "d", "d"), E(1, 8, "d", "d"), E(3, 1, "g", "f", TEXTS[0]), E(9, 8, "f", "f", b"q\n")]
+    o5 = [E(1, 0, "old", "d"), E(8, 0, "d", "d"), E(3, 8, "f", "f", TEXTS[0]), E(9, 1, "f", "f", b"q\n")]
+    # file path re-use: rename a file away, new file (and a new directory) at the old path
+    fb = [D, F, E(4, 0, "a", "f", TEXTS[1])]
+    o6 = [D, E(3, 1, "g", "f", TEXTS[0]), E(8, 1, "f", "f", b"q\n"), E(4, 0, "b", "f", TEXTS[1]), E(9, 0, "a", "f", TEXTS[2])]
+    o7 = [D, E(3, 0, "f", "f", TEXTS[0]), E(8, 1, "f", "d"), E(9, 8, "f", "f", b"q\n"), E(4, 0, "a", "f", TEXTS[1])]
+    out = []
+    k = 0
+    for b, o in [(base, o1), (base, o2), (base, o3), (base, o4), (base, o5), (fb, o6), (fb, o7)]:
+        for shape in ("l2", "l1", "l4", "xl2"):
+            k += 1
+            mt = ["merge3", "weave", "lca"][k % 3]
+            if shape == "l2":
+                out.append(mk("2a", mt, b, b, o, tag="reuse-l2"))
+            elif shape == "l1":
+                out.append(mk("2a", mt, b, o, b, tag="reuse-l1"))
+            elif shape == "l4":
+                out.append(mk("2a", mt, b + [E(7, 0, "z", "f", b"q\n")], b + [E(7, 0, "z", "f", TEXTS[0], True)],
+                              o + [E(7, 0, "z", "f", b"q\n")], tag="reuse-l4"))
+            else:
+                out.append(mk("2a", mt, b, b, o, lcas=[b, b], tag="xreuse-l2"))
+    return out
+
+
+REUSE_CORPUS = _reuse_corpus()
+
+
 def corpus():
     d, f = E(1, 0, "x", "d"), E(3, 0, "a", "f", TEXTS[0], True)
     return [
@@ -348,7 +474,7 @@ def corpus():
         mk("2a", "merge3", [f], [E(3, 0, "a", "f", TEXTS[3], True)], [E(3, 0, "a", "f", TEXTS[4], False)], tag="tc"),
         mk("2a", "weave", [f], [E(3, 0, "a", "f", TEXTS[1], True)], [E(3, 0, "b", "f", TEXTS[2], False)], tag="tm"),
         WITNESS_NONDIR, WITNESS_GITDIR, WITNESS_NOFINALPATH,
-    ]
+    ] + REUSE_CORPUS
 
 
 # ---------------------------------------------------------------- implementation driver
